@@ -242,4 +242,66 @@ REGISTRY = {
                     "lists with several conditions (the encoding is per condition and concatenated)"],
         "assumptions": [],
     },
+    "C13": {
+        "level_text": "Bounded proof (Kani/CBMC): for each listed type and EVERY byte string of the listed lengths, untrusted decoding "
+                      "accepted => re-encoding reproduces exactly those bytes, trusted decoding yields the same value, and the streaming "
+                      "hash consumes exactly the encoding (for version-2 proofs of space: the encoding with the proof replaced by its "
+                      "32-byte commitment); byte strings of a wrong length, with non-0/1 bool/Option prefixes, inconsistent length "
+                      "prefixes, unknown versions or a v2 proof with both/neither pool key and contract are rejected.",
+        "level_note": "Buffer lengths are enumerated per instance (all contents symbolic for primitives, combinators and Coin/CoinState; "
+                      "for sequences the 4-byte length prefix is fixed per instance; for ProofOfSpace the layout-deciding prefix bytes are "
+                      "fixed per instance, scalar fields / proof / hash bytes symbolic, key bodies fixed). SHA-256 -> recorder (S3), BLS "
+                      "keys -> tokens (S4), proof-of-space quality -> nondeterministic Option (S6), format! -> empty (S5). The ~120 further "
+                      "derived protocol structs use the same macro and are not re-run; FullBlock/UnfinishedBlock are outside.",
+        "quick": ["c13_"],
+        "thorough": ["c13t_"],
+        "cbmc_args": ["--max-field-sensitivity-array-size", "256"],
+        "min_quick": 45,
+        "min_thorough": 52,
+        "timeout_quick": 1200,
+        "timeout_thorough": 2400,
+        "functions": [
+            "chia_traits::Streamable::{from_bytes,from_bytes_unchecked,to_bytes,hash} and parse/stream/update_digest for u8..i128, bool, (), "
+            "Option<T>, (T,U), (T,U,V), (T,U,V,W), [T;N], Vec<T>, String",
+            "chia_protocol::{BytesImpl<N>, Bytes, Coin, CoinState} (derive macro chia_streamable_macro)",
+            "chia_protocol::ProofOfSpace::{parse,stream,update_digest} (hand-written versioned codec)",
+        ],
+        "bounds": {"primitives/combinators": "all byte strings of the type's encoding length(s) and of neighbouring wrong lengths",
+                   "sequences": "6..8-byte buffers, length prefix in {0, right, right-1, right+1, 2^32-1}",
+                   "ProofOfSpace": "lengths 87/119/120/122/123/135/138/170/90 (v1/v2 x pool key / contract / both / neither, proof of 0..1 "
+                                   "bytes), prefixes perturbed to 2, version 2/3, 0x83",
+                   "unwind": "36..180"},
+        "stubs": [S1, S3, "S4 BLS token model (PublicKey::{from_bytes,from_bytes_unchecked,to_bytes})", "S5 std::fmt::format -> empty",
+                  "S6 ProofOfSpace::quality_string -> fixed Some(..) (None only in the C14 harness)"],
+        "outside": ["~120 further derived structs (same macro), FullBlock / UnfinishedBlock (did not fit: buffers of several hundred bytes)",
+                    "real BLS point canonicity (C16)", "element counts > 2, String beyond 2 bytes"],
+        "assumptions": [],
+    },
+    "C14": {
+        "level_text": "Bounded proof (Kani/CBMC) with Kani's panic / arithmetic-overflow / bounds / unwrap checks on: both decoders, "
+                      "re-encode and hash return for every byte string of the listed lengths; an attacker-chosen 32-bit length prefix "
+                      "neither loops past the buffer (unwinding assertion) nor pre-allocates more than 2 MiB (capacity observed through "
+                      "a Vec::with_capacity probe); trailing / missing bytes are rejected. One genuine defect is recorded: hashing a "
+                      "decoded version-2 proof of space whose proof does not validate panics (known_findings.json).",
+        "level_note": "Same harnesses as C13 (subset in quick) plus c14_*; stubs S1,S3,S4,S5,S6. Peak allocation and run time as such are not "
+                      "measured; Program fields (CLVM deserializer) are outside.",
+        "quick": ["c14_", "c13_vec", "c13_bytes", "c13_opt", "c13_tuple", "c13_pos_bad", "c13_pos_v2_both", "c13_pos_v2_neither",
+                  "c13_bool", "c13_u32", "c13_coin"],
+        "thorough": ["c13_", "c13t_"],
+        "cbmc_args": ["--max-field-sensitivity-array-size", "256"],
+        "min_quick": 20,
+        "min_thorough": 52,
+        "timeout_quick": 900,
+        "timeout_thorough": 2400,
+        "functions": [
+            "chia_traits::streamable::read_bytes, Vec<T>::parse (length prefix, 2 MiB pre-allocation cap)",
+            "chia_traits::Streamable::{from_bytes,from_bytes_unchecked,to_bytes,hash} for the C13 types",
+            "chia_protocol::ProofOfSpace::{parse,update_digest}",
+        ],
+        "bounds": {"buffers": "as C13; Vec<u32> from all 10-byte buffers (length prefix fully symbolic)"},
+        "stubs": [S1, S3, "S4", "S5", "S6 (quality None)", "Vec::with_capacity -> capacity probe (c14_vec_length_prefix_bounded)"],
+        "outside": ["Program::parse / deep CLVM nesting (clvmr deserializer)", "time and peak allocation as measurements",
+                    "Signature / G1 decoding inside blst"],
+        "assumptions": [],
+    },
 }
